@@ -74,6 +74,7 @@ var (
 	c08pViolClosed    = sim.RegStat("probe:c08-violation-after-local-close")
 	c08pEOF           = sim.RegStat("probe:c08-unexpected-eof-1006")
 	c08pWriteRefuse   = sim.RegStat("probe:c08-write-refused-after-close")
+	c08pShortBuf      = sim.RegStat("probe:c08-message-longer-than-the-buffer-read-after-local-close")
 	c08pReadAfter     = sim.RegStat("probe:c08-read-after-closing-handshake")
 )
 
@@ -272,6 +273,11 @@ func (d *c08) read(api int) {
 		ctls []wsCtl
 	)
 	buf := make([]byte, 1024)
+	if message && d.state == msClosedByUs && d.w.Chance(1, 3) {
+		// the closing handshake is under way and the application reads for the peer's Close with a buffer that is too
+		// short for a message still in the pipe: that read fails, and the client's one Close frame has been sent already
+		buf = make([]byte, 3)
+	}
 	ws.SetControlCallback(func(t websocket.MessageType, p []byte) {
 		ctls = append(ctls, wsCtl{byte(t), append([]byte(nil), p...)})
 	})
@@ -353,6 +359,13 @@ func (d *c08) read(api int) {
 		// message API: controls go to the callback, a data frame ends the call, a close ends the stream
 		switch pv.kind {
 		case pvData:
+			if len(pv.payload) > len(buf) {
+				d.w.Stat(c08pShortBuf)
+				if err == nil {
+					c.Failf("message-longer-than-buffer-not-reported/"+name, "%s returned no error for a %d-byte message read into a %d-byte buffer", name, len(pv.payload), len(buf))
+				}
+				return
+			}
 			if err != nil {
 				c.Failf("message-read-failed/"+name, "%s failed with %v on a conforming message", name, err)
 			}
